@@ -411,6 +411,7 @@ func Execute(sc *Scenario) *Run {
 		r.note("%s by %d accept=%v: %v", st.Kind, st.By, st.Accept, err)
 	}
 
+steps:
 	for _, st := range sc.Steps {
 		switch st.Kind {
 		case "pay":
@@ -460,18 +461,15 @@ func Execute(sc *Scenario) *Run {
 			sc1, err := by.Client.ProposeChannel(ctx, sp)
 			cancel()
 			if err != nil {
+				// the scenario program cannot be carried out as written: the run is not judged
 				r.note("opensub: %v", err)
-				// drain the responder's result if any
-				select {
-				case <-other.newCh:
-				default:
-				}
-				continue
+				e.notef("sub-channel %d could not be opened: %v", st.Sub, err)
+				break steps
 			}
 			sc2 := <-other.newCh
 			if sc2 == nil {
-				r.note("opensub: responder failed")
-				continue
+				e.notef("sub-channel %d could not be opened at the responder", st.Sub)
+				break steps
 			}
 			subs[st.Sub] = map[int]*client.Channel{by.I: sc1, other.I: sc2}
 			r.Subs = append(r.Subs, sc1.ID())
@@ -521,6 +519,10 @@ func Execute(sc *Scenario) *Run {
 				delete(subs, st.Sub)
 			}
 		}
+	}
+	if len(e.Inconclusive) > 0 {
+		r.After = r.balances()
+		return r
 	}
 	e.WaitQuiescent()
 	for k, p := range sc.Settle {
